@@ -53,10 +53,12 @@ def audit_sources():
                 raise BuildError(f"forbidden construct {m.group(0)!r} in {os.path.relpath(path, ROOT)}")
 
 
+TRANSLATOR_NOTES = []
 def regenerate_constants():
     dest = os.path.join(COQ, "theories", "Gen", "Extracted.v")
     rc, out = sh([PY, os.path.join(ROOT, "harness", "extract_consts.py"), dest],
                  env=dict(os.environ, AS_SRC=REPO_SRC, PYTHONPATH=REPO_SRC, PYTHONHASHSEED="0"))
+    TRANSLATOR_NOTES[:] = [l for l in out.split("\n") if l.startswith("UNTRANSLATED")]
     if rc != 0:
         raise BuildError("translator: harness/extract_consts.py could not regenerate Gen/Extracted.v from the sources "
                          "(the constants the model is built from are no longer what the translator understands): "
